@@ -538,6 +538,11 @@ pub struct Oracle {
     pub start_usable: bool,
     pub pre_new: Option<FileState>,
     pub wiping: bool,
+    /// an update (or a re-initialisation) was started and has not completed - from the writer's side,
+    /// whatever the generation field says; survives the death of the writer
+    pub unfinished: bool,
+    /// stop-on set: properties whose violation ends a run early (empty = all)
+    pub stop_on: Vec<String>,
     /// sequentially consistent memory (false while stale values are served: CatchUp is not required then)
     pub sc: bool,
 }
@@ -549,6 +554,7 @@ pub struct ReaderObs {
     pub in_call: bool,
     pub quiet: bool,
     pub calls: u64,
+    pub last_words: [u64; WORDS],
 }
 
 impl Oracle {
@@ -558,6 +564,7 @@ impl Oracle {
         if pub_done > 0 {
             gen_of_pub.insert(pub_done, fs.gen);
         }
+        let unfinished0 = Self::in_flight(&fs) || !fs.exists;
         Oracle {
             path: path.to_path_buf(),
             bounds,
@@ -574,8 +581,14 @@ impl Oracle {
             start_usable: false,
             pre_new: None,
             wiping: false,
+            unfinished: unfinished0,
+            stop_on: vec![],
             sc: true,
         }
+    }
+    /// whether a violation that ends the run was recorded
+    pub fn should_stop(&self) -> bool {
+        self.violations.iter().any(|v| self.stop_on.is_empty() || self.stop_on.contains(&v.0))
     }
     fn viol(&mut self, p: &str, sig: &str, what: String) {
         self.violations.push((p.to_string(), sig.to_string(), what));
@@ -602,6 +615,7 @@ impl Oracle {
         let fs = file_state(&self.path);
         if desc == "point:wipe.create" {
             self.wiping = true;
+            self.unfinished = true;
             self.pub_done = 0;
             self.quiet_off();
             if self.start_usable {
@@ -656,6 +670,7 @@ impl Oracle {
         let fs = file_state(&self.path);
         if desc.starts_with("store:") || desc.starts_with("dw:") {
             self.quiet_off();
+            self.unfinished = true;
         }
         if desc == "store:gen" && !self.odd_stored {
             self.odd_stored = true;
@@ -678,6 +693,7 @@ impl Oracle {
     pub fn w_write_done(&mut self) {
         let fs = file_state(&self.path);
         self.in_write = false;
+        self.unfinished = false;
         self.pub_done = self.wk;
         self.completed_by_live += 1;
         self.quiet_off();
@@ -714,15 +730,25 @@ impl Oracle {
         e.attached = res == "Ok";
     }
     pub fn r_call_start(&mut self, r: &str) {
-        let fs = file_state(&self.path);
-        let q = !Self::in_flight(&fs) && !self.in_write;
+        // "no update in flight" from the writer's side: nothing started and left unfinished. (With a
+        // correct writer this coincides with an even, non-zero generation and version 1.)
+        let q = !self.unfinished && !self.in_write && self.pub_done >= 1;
         let e = self.readers.entry(r.to_string()).or_default();
         e.in_call = true;
         e.quiet = q;
         e.calls += 1;
     }
     /// a snapshot() call returned
-    pub fn r_call_done(&mut self, r: &str, what: &str, words: Option<[u64; WORDS]>, accesses: u64) {
+    pub fn r_call_done(&mut self, r: &str, what: &str, words: Option<[u64; WORDS]>, accesses: u64, first_loads: (Option<u64>, Option<u64>)) {
+        // C18: a call that finds an update in flight (version 0, generation 0 or odd at its first loads)
+        // answers from its previous snapshot at once instead of waiting
+        let inflight_at_entry = first_loads.0 == Some(0) || matches!(first_loads.1, Some(g) if g == 0 || g % 2 == 1);
+        if inflight_at_entry && self.sc {
+            let prev = self.readers.get(r).map(|o| o.last_words).unwrap_or([0; WORDS]);
+            if what != "ok" || words != Some(prev) || accesses > 2 {
+                self.viol("C18", "waited-on-inflight-update", format!("reader {r}: update in flight at call entry (version {:?}, generation {:?}) but snapshot() did not answer from its previous snapshot at once: result {what} {:?} after {accesses} shared accesses", first_loads.0, first_loads.1, words));
+            }
+        }
         let w_model = self.bounds.len() as u64 - 1;
         let obs = self.readers.get(r).cloned().unwrap_or_default();
         if accesses > 2 + (WORDS as u64 + 2) * RETRY {
@@ -756,6 +782,9 @@ impl Oracle {
         }
         if let Some(e) = self.readers.get_mut(r) {
             e.in_call = false;
+            if let Some(w) = words {
+                e.last_words = w;
+            }
         }
     }
 }
